@@ -66,6 +66,10 @@ def verify_function(world, registry, con, vname=''):
         path = Path(trace)
         I = Interp(world, registry, path, fname=con.target)
         I.contract = con
+        gd = dict(con.ghost.get('defs', {}))
+        if vname and vname in con.variants:
+            gd.update(con.variants[vname].get('ghost_defs', {}))
+        I.ghost_defs = gd
         outcome = None
         try:
             outcome = run_path(I, con, vname, module, cls, fn, params, requires, ensures, raises, may_raise,
